@@ -138,8 +138,10 @@ class CacheFamily(Family):
         self.n_quick, self.n_thorough, self.name = n_quick, n_thorough, name
 
     def gen(self, rng, tier, n):
-        edges = [0, 5, 10, 15, 20, 30]
+        # segment and window edges on, below and above timestamp 0 (a legitimate instant: 1970-01-01)
+        base_edges = [0, 5, 10, 15, 20, 30]
         for _ in range(n):
+            edges = base_edges if rng.random() < 0.7 else [-10, -5, 0, 5, 10, 20]
             ttl = rng.choice([1, 2, 5, 10])
             tick = rng.choice([0, 0, 1])
             masked = rng.random() < 0.2
@@ -171,7 +173,7 @@ class CacheFamily(Family):
             for _ in range(rng.choice([1, 2, 3, 4, 5, 6, 8, 10] if tier == "quick" else [2, 4, 6, 8, 10, 12])):
                 r = rng.random()
                 if r < 0.6:
-                    a = rng.choice(edges[:-1] + [rng.randrange(0, 29)])
+                    a = rng.choice(edges[:-1] + [rng.randrange(edges[0], 29)])
                     b = rng.choice([x for x in edges + [a + 1, a + 3] if x > a])
                     ops.append(["q", a, b, rng.random() < 0.3])
                 elif r < 0.9 or not self.mutations:
